@@ -43,6 +43,11 @@ def resStr (f : α → String) : Res α → String
   | .err => "err"
   | .panic => "panic"
 
+/-- a set of token texts: sorted, without repetition, hex, '.'-separated -/
+def setText (l : List (List Nat)) : String :=
+  let v := (sortStrings (l.map hex)).eraseDups
+  if v.isEmpty then "-" else ".".intercalate v
+
 def isCardTok (t : Token UInt32) : Bool := match t.kind with | .singleCard _ => true | _ => false
 
 /-- number of legal deals at the first three positions of flop 2h 2d 2c with this single range (any entry order) -/
@@ -65,6 +70,7 @@ def describeRange (r : HandRange UInt32) (withEval : Bool) : String :=
   let toksR := showRangeTokens f32Text r
   let text := resStr (fun toks => hex (joinCommas (toks.map (Token.show f32Text)))) toksR
   let rptext := resStr (fun toks => hex (joinCommas ((toks.filter (!isCardTok ·)).map (Token.show f32Text)))) toksR
+  let octext := resStr (fun toks => setText ((toks.filter isCardTok).map (Token.show f32Text))) toksR
   let reparse : String :=
     match toksR with
     | .ok toks =>
@@ -83,7 +89,7 @@ def describeRange (r : HandRange UInt32) (withEval : Bool) : String :=
   let rp := resStr (fun l => if l.isEmpty then "-" else ",".intercalate (sortStrings (l.map fun (k, w) => s!"{rpKey k}:{w.toNat}")))
     (rankPairs f32Text r)
   let orph := resStr (fun o => fmtEntries (entriesOf (HandRange.contents o))) (orphans f32Text r)
-  let base := s!"ok n={contents.length} map={fmtEntries (entriesOf contents)} bad={bad} text={text} rptext={rptext} rp={rp} orph={orph} reparse={reparse}"
+  let base := s!"ok n={contents.length} map={fmtEntries (entriesOf contents)} bad={bad} text={text} rptext={rptext} octext={octext} rp={rp} orph={orph} reparse={reparse}"
   if withEval then base ++ s!" ev={evalProbe contents}" else base
 
 def opParseToken (a : List String) : String :=
@@ -192,6 +198,12 @@ def specRpText (m : Spec.Contents UInt32) : List Nat :=
       (fun i => [Spec.rl h, Spec.rl (h + 1 + i), 111]) (fun i j => [Spec.rl h, Spec.rl (h + 1 + i), 111, 45, Spec.rl h, Spec.rl (h + 1 + j), 111])
   joinCommas (pockets ++ rows)
 
+/-- expected leftover part of the text: one single-combo token per leftover combo (a set: the order and repetition of
+leftover tokens is not fixed by the property) -/
+def specOrphText (orph : List ((Nat × Nat) × UInt32)) : String :=
+  setText (orph.map fun ((x, y), w) =>
+    (Spec.WfToken.cards x y).text ++ (if f32Eq w 0x3F800000 then [] else [58] ++ showF32 w))
+
 def specRangeOps (a : List String) : Option String :=
   let es := listedEntries (a.drop 1)
   let proper := es.all fun e => !entryBad e && Card.lt e.1.fst e.1.snd && e.1.fst.valid && e.1.snd.valid
@@ -202,7 +214,7 @@ def specRangeOps (a : List String) : Option String :=
   let rpS := if rp.isEmpty then "-" else ",".intercalate (sortStrings (rp.map fun (k, w) => s!"{specRpKey k}:{w.toNat}"))
   let orph := Spec.orphanView f32Eq m
   let orphS := fmtEntries (orph.map fun ((x, y), w) => (52 * x + y, w.toNat))
-  some s!"all:[C09]nopanic;;[C12]has: rp={rpS} orph={orphS} ;;[C06]has: reparse=1;;[C17]has: rptext={hex (specRpText m)} "
+  some s!"all:[C09]nopanic;;[C12]has: rp={rpS} orph={orphS} ;;[C06]has: reparse=1;;[C17]has: rptext={hex (specRpText m)} octext={specOrphText orph} "
 
 def specCanon (_a : List String) : Option String := some "all:nopanic;;has:same=1 "
 
